@@ -3,7 +3,7 @@ import os
 
 from ..core import BaseProp, CaseResult, sig_hash
 from .. import runner, fsrun, gitmatch
-from ..treegen import gen_tree, reference_walk, expected_outputs, Tree, cmake_text
+from ..treegen import gen_tree, reference_walk, expected_outputs, Tree, cmake_text, small_trees
 
 
 class Prop(BaseProp):
@@ -15,24 +15,42 @@ class Prop(BaseProp):
             "on/off x auto-exclusion on/off x prefix x output location (absolute, relative, nested inside the input "
             "tree) x injected directory-listing order; real cminx.main in-process; observed file set (snapshot AND "
             "audit-hook write log) must equal the reference walk, sampled pages must equal the single-file page. "
-            "Distinct = tree shape + options; non-trivial = tree with >=1 subdirectory and >=2 CMake files")
+            "plus EVERY tree with <=5 (quick) / <=7 (thorough) nodes over a fixed alphabet x recursive x auto-exclusion "
+            "(exhaustive). Distinct = tree shape + options; non-trivial = tree with >=1 subdirectory and >=2 CMake files")
     ASSUMPTIONS = ["carve-outs of the quantifier respected (top directory holds a lower-case .cmake when auto-exclusion "
                    "is on; mixed-case extensions only beside a lower-case one)", "no symlinks",
                    "file stems distinct case-insensitively and never 'index'"]
     HEADLINE = ["runs", "pages_expected", "pages_found", "index_expected", "single_file_comparisons", "audit_write_events",
                 "listings_permuted"]
 
+    NR = {"quick": 1500, "thorough": 20000}
+    SMALL = {"quick": 5, "thorough": 7}
+
+    def small(self):
+        if not hasattr(self, "_small"):
+            self._small = small_trees(self.SMALL[self.tier])
+        return self._small
+
     def n_cases(self, tier):
-        return 1500 if tier == "quick" else 20000
+        self.tier = tier
+        return self.NR[tier] + 4 * len(self.small())
 
     def setup_worker(self):
         runner.cminx()
 
     def run_case(self, idx, rng):
         res = CaseResult()
-        tree = gen_tree(rng, max_depth=rng.choice([1, 2, 3, 4]), case_twins=rng.random() < 0.3)
-        recursive = rng.random() < 0.7
-        auto = rng.random() < 0.6
+        if idx >= self.NR[self.tier]:
+            # exhaustive block: every small tree x recursive x auto-exclusion
+            j = idx - self.NR[self.tier]
+            tree = self.small()[j // 4]
+            recursive, auto = bool(j % 4 // 2), bool(j % 2)
+            res.see("mode", "small-tree-enumeration")
+            res.count("enumerated_small_tree_runs")
+        else:
+            tree = gen_tree(rng, max_depth=rng.choice([1, 2, 3, 4]), case_twins=rng.random() < 0.3)
+            recursive = rng.random() < 0.7
+            auto = rng.random() < 0.6
         prefix = rng.choice([None, None, "Pfx", "my.pkg"])
         outmode = rng.choice(["abs", "rel", "nested", "abs"])
         order_mode = rng.choice(fsrun.ORDER_MODES[:4])
@@ -121,8 +139,14 @@ class Prop(BaseProp):
                 res.sample = {"argv": argv, "tree_files": sorted(tree.files)[:15], "expected_outputs": sorted(want)[:15]}
         return res
 
+    def extra_coverage(self, merged, tier):
+        return {"exhaustive": True, "exhaustive_dimension": f"all {len(self.small())} directory trees with <= {self.SMALL[tier]} nodes "
+                "(lower-case/mixed-case CMake file, non-CMake file, <=2 sub-directories per directory, depth <=3) x recursive x auto-exclusion"}
+
     def check_observed(self, merged, tier):
         o = merged["obs"]
+        if o.get("enumerated_small_tree_runs", 0) != 4 * len(self.small()):
+            return ["small-tree enumeration incomplete"]
         out = [f"{k} < 50" for k in ("runs", "pages_expected", "single_file_comparisons", "audit_write_events",
                                      "listings_permuted") if o.get(k, 0) < 50]
         return out
